@@ -52,15 +52,24 @@ class Query:
         self.t, self.questions, self.probe, self.src = t, questions, probe, src
 
 
+V6 = {"on": False}  # IPv6 variant of a scenario: the host has one IPv6 socket, sources are link-local 4-tuples
+
+
+def src_tuple(ip: str) -> tuple:
+    if V6["on"]:
+        return ("fe80::" + ip.rsplit(".", 1)[-1], 5353, 0, 3)
+    return (ip, 5353)
+
+
 def drive(w: World, host: Any, script: List[Tuple[float, bytes, str]], horizon_ms: float) -> None:
     """script: (absolute ms, datagram, source ip); injected in time order through the host's listener."""
     for t, data, src in sorted(script, key=lambda x: x[0]):
-        w.loop.call_at(t / 1000, w.net.inject, host, data, (src, 5353))
+        w.loop.call_at(t / 1000, w.net.inject, host, data, src_tuple(src))
     w.advance_to_ms(horizon_ms)
 
 
 def setup(w: World, reference_sighting: bool = True) -> Tuple[Any, float]:
-    host = w.new_zeroconf()
+    host = w.new_zeroconf(mode="single6" if V6["on"] else "single")
     for s in REG.values():
         register(w, host, make_info(s, None))
     w.advance(1500 if reference_sighting else 1)
@@ -72,7 +81,7 @@ def setup(w: World, reference_sighting: bool = True) -> Tuple[Any, float]:
             for r in svc_records(s):
                 if r not in recs:
                     recs.append(r)
-        w.net.inject(host, wire.response(recs), ("10.0.0.50", 5353))
+        w.net.inject(host, wire.response(recs), src_tuple("10.0.0.50"))
         w.settle()
     return host, w.now_ms
 
@@ -225,10 +234,20 @@ def points(tier: str) -> List[Dict[str, Any]]:
         for tj in (0.0, 1.0):
             pts.append({"fam": "tc", "n": 2, "gaps": [g], "terminated": False, "content": "same-q/no-ka", "tc_jitter": tj,
                         "order": "timer-first", "sources": 2})
+    # the same scenarios on an IPv6-only host (every 7th point; sources are 4-tuples there)
+    pts += [dict(p, v6=True) for p in pts[::7]]
     return pts
 
 
 def run_point(p: Dict[str, Any], verbose: bool = False) -> Tuple[Optional[Dict[str, Any]], str, int]:
+    V6["on"] = bool(p.get("v6"))
+    try:
+        return _run_point(p, verbose)
+    finally:
+        V6["on"] = False
+
+
+def _run_point(p: Dict[str, Any], verbose: bool = False) -> Tuple[Optional[Dict[str, Any]], str, int]:
     problems: List[str] = []
     fam = p["fam"]
     if fam in ("single", "after-announce"):
@@ -323,12 +342,12 @@ def judge_tc(problems: List[str], w: World, host: Any, p: Dict[str, Any], t_begi
         script.append((t, data, srcs[i], tc))
     if p["order"] == "packet-first":
         for t, data, src, tc in script:
-            w.loop.call_at(t / 1000, w.net.inject, host, data, (src, 5353))
+            w.loop.call_at(t / 1000, w.net.inject, host, data, src_tuple(src))
         w.advance_to_ms(times[-1] + 3000)
     else:
         for t, data, src, tc in script:
             w.advance_to_ms(t)  # timers due at t run first
-            w.net.inject(host, data, (src, 5353))
+            w.net.inject(host, data, src_tuple(src))
             w.settle()
         w.advance_to_ms(times[-1] + 3000)
     trace_all = [Decoded(s) for s in w.net.trace if s.host == host.name]
